@@ -46,6 +46,16 @@ def run_property(prop, tier, repo=None):
         setattr(mod, name, lambda *a, **k: None)
     if run is not None:
       errors.extend(run.errors)
+      if tier == "thorough" and not os.environ.get("VERIF_NO_EVIDENCE") and \
+          not os.environ.get("VERIF_REPO"):
+        from . import selftest
+        st = selftest.summary(prop)
+        run.extra["rule_vitality_selftest"] = st
+        if st.get("missed"):
+          run.note("self-test: rule(s) did not fire on variant(s) %s" % ", ".join(st["missed"]))
+        print("%s thorough: mutation self-test %s/%s variants caught%s" % (
+          prop, st.get("caught", 0), st.get("variants", 0),
+          (", inapplicable: %s" % ", ".join(st["inapplicable"])) if st.get("inapplicable") else ""))
     for (name, msg) in errors:
       print("ANALYSIS-ERROR property=%s %s%s" % (prop, ("[%s] " % name) if name else "", msg))
     if run is None:
